@@ -5,7 +5,7 @@ From UM Require Import Base.BytesDef Base.RespT Model.Ttl Model.Migrate Proofs.T
 Ltac unfold_cls :=
   unfold needs_klock, needs_slock, in_pull, in_handler, held, half_dump, half_pttl, saw_none, del_pending, at_fwd,
          ready_del, is_delete, cl_lock, cl_pending, cl_started, post_pc, pc_klock, set_pc, set_cl in *;
-  cbn [opc ocmd ocl in_slow holder scan_holder visiting] in *.
+  cbn [opc ocmd ocl in_slow holder scan_holder scan_holding visiting] in *.
 
 (* facts about op i in state s, with the op destructed *)
 Ltac start I Hn :=
@@ -788,17 +788,42 @@ Proof.
   - simp_g. intros; congruence.
 Qed.
 
+(* the effect of a multi-key command on a key other than its first key: forwarded when the key is imported *)
+Lemma ev_ensured : forall s i c cl,
+  Inv s -> nth_error (ops s) i = Some (mkOp c PAtDst cl) -> dph_serving (dph (gl s)) = true ->
+  (negb (is_none (dst (gl s))) || is_none (src (gl s))) = true ->
+  ensured_step s (EvEnsured i) = true ->
+  Inv (mkState (gl s) (upd i (mkOp c PFwd cl) (ops s))).
+Proof.
+  intros s i c cl I Hn D M E. start I Hn. assert (cl = CNone) by (eapply cl_none_of; eauto). subst cl.
+  pose proof (g_serving _ G D) as F.
+  assert (X : dst (gl s) = None -> src (gl s) = None).
+  { intros Ed. rewrite Ed in M. cbn in M. apply is_none_true in M. exact M. }
+  unfold ensured_step in E. rewrite Hn in E. cbn [ocmd] in E.
+  eapply inv_upd_same; eauto.
+  - wf_tac W.
+  - loc_tac Lo. intros Hd. destruct (ckind c); try discriminate.
+    apply andb_true_iff in E. destruct E as [E _]. apply andb_true_iff in E. destruct E as [E _].
+    apply is_none_true in E. exact E.
+  - unfold_cls. intros R _. destruct (ckind c); cbn in R; try discriminate.
+    apply andb_true_iff in E. destruct E as [E E3]. apply andb_true_iff in E. destruct E as [E1 E2]. split.
+    + intros j oj _ Hj. eapply no_holder_nth; eauto.
+    + apply negb_true_iff in E3. exact E3.
+  - noready.
+Qed.
+
 (* ---------- every step ---------- *)
-Definition step_ok (s : state) (e : event) : bool := c11_step s e && commit_step s e && classified_step e.
+Definition step_ok (s : state) (e : event) : bool := c11_step s e && commit_step s e && classified_step e && ensured_step s e.
 
 Lemma andb3 : forall a b c, a && b && c = true -> a = true /\ b = true /\ c = true.
 Proof. intros [] [] []; cbn; auto. Qed.
 
 Lemma op_step_inv : forall s i o e g' o',
-  Inv s -> c11_step s e = true -> nth_error (ops s) i = Some o -> ev_op e = Some i -> is_cl_event e = false ->
+  Inv s -> c11_step s e = true -> ensured_step s e = true ->
+  nth_error (ops s) i = Some o -> ev_op e = Some i -> is_cl_event e = false ->
   op_step (gl s) i o e = Some (g', o') -> Inv (mkState g' (upd i o' (ops s))).
 Proof.
-  intros s i [c p cl] e g' o' I C Hn He Hc Hs.
+  intros s i [c p cl] e g' o' I C Ce Hn He Hc Hs.
   destruct e; cbn in He, Hc; try discriminate; inversion He; subst; clear He;
     pose proof Hs as Hs0; unfold op_step in Hs; cbn [opc ocmd ocl] in Hs; destruct p; try discriminate.
   - (* EvSrcHandoff *) destruct (sph_lt_scanning (sph (gl s))); inversion Hs; subst. eapply ev_simple_route; eauto.
@@ -850,6 +875,10 @@ Proof.
   - (* EvPushForward *) inversion Hs; subst. apply ev_push_forward; auto.
   - (* EvExecDst *) inversion Hs; subst. apply ev_exec_dst; auto.
   - (* EvReply *) inversion Hs; subst. apply ev_reply; auto.
+  - (* EvEnsured *)
+    destruct (dph_serving (dph (gl s)) && negb (committed (gl s)) && (negb (is_none (dst (gl s))) || is_none (src (gl s)))) eqn:E;
+      inversion Hs; subst.
+    apply andb3 in E. destruct E as (E1 & E2 & E3). apply ev_ensured; auto.
 Qed.
 
 Lemma cl_step_inv : forall s i o e g' o',
@@ -916,7 +945,8 @@ Qed.
 
 Theorem step_inv : forall s e s', Inv s -> step_ok s e = true -> step s e = Some s' -> Inv s'.
 Proof.
-  intros s e s' I Ok Hs. unfold step_ok in Ok. apply andb3 in Ok. destruct Ok as (C1 & C2 & C3).
+  intros s e s' I Ok Hs. unfold step_ok in Ok. apply andb_true_iff in Ok. destruct Ok as [Ok C4].
+  apply andb3 in Ok. destruct Ok as (C1 & C2 & C3).
   unfold step in Hs.
   destruct (ev_op e) as [i|] eqn:Eo.
   - assert (NI : forall c b, e <> EvInvoke c b) by (intros c b ->; discriminate).
